@@ -36,7 +36,7 @@ prop(
     "cases = (voice: bundled | PDF-perturbed copy | generated voice over the full {2,3 streams}x{stage 0..3}x{1..7 states}x{4 window sets} grid | random generated) x (utterance: corpus window / shuffle / field-recombination / breath group; structurally random labels for the no-panic part) x (random point or corner of the condition envelope, incl. alignment with random time annotations); "
     "non-trivial = at least one voiced frame and more frames than states; distinct by hash(voice description, condition, label text)",
     [st("checked", death_is_violation=True)],
-    [st("checked", death_is_violation=True), st("release", death_is_violation=True)],
+    [st("checked", death_is_violation=True), st("release", death_is_violation=True), st("asan", name="asan", args=["--sub", "synthetic", "--scale", "0.03"], env=ASAN_ENV, canary="asan", death_is_violation=True)],
     ["spectral stable range evaluated on 64 warped frequencies from the hooked trajectory (after the postfilter law)"],
 )
 
@@ -72,7 +72,7 @@ prop(
     "exploration",
     "histories over {step(fp), step(2fp), step(3fp-1), frames-produced query, finish}: EVERY history up to length 5 (quick) / 7 (thorough) on generators of 0..5 frames (tiny generated voice, one frame per label) is enumerated; random long histories (buffer sizes in [fp,3fp], finish at a random cut incl. 0, F and past the end) on the bundled and generated voices under random conditions; each is checked against a sequential cursor model over the one-shot waveform; non-trivial = a step followed by a finish at 0<k<F, or >= 2 distinct buffer sizes; distinct by (voice, F, history)",
     [st("checked", death_is_violation=True)],
-    [st("checked", death_is_violation=True), st("release", death_is_violation=True)],
+    [st("checked", death_is_violation=True), st("release", death_is_violation=True), st("asan", name="asan", args=["--sub", "random", "--scale", "0.05"], env=ASAN_ENV, canary="asan", death_is_violation=True)],
     ["buffer contents beyond the first fperiod samples are not constrained (the statement does not say)"],
     exhaustive_part="the sub-space 'exhaustive' (all histories up to the length bound on 0..5-frame generators) is enumerated completely; the random sub-space is sampled",
 )
